@@ -180,7 +180,14 @@ def check(run):
 
 
 def _nan_buffer(t, k):
-    """asarray([nan for _ in range(k)]) / full(k, nan) / asarray([nan] * k)"""
+    """asarray([nan for _ in range(k)]) / full(k, nan) / asarray([nan] * k), in double precision"""
+    if t[0] == "fn":
+        for a in t[2]:
+            if isinstance(a, tuple) and a and a[0] == "kw" and a[1] == "dtype":
+                d = a[2]
+                if d not in (("global", "builtins.float"), ("global", "numpy.float64"), ("global", "numpy.double"),
+                             ("const", "float64"), ("const", "float"), ("const", "d"), ("const", "f8")):
+                    return False
     def is_nan(x):
         return x == ("global", "numpy.nan") or x == ("global", "math.nan") or \
             (x[0] == "fn" and x[1] == "float" and x[2] == (("const", "nan"),))
